@@ -27,6 +27,7 @@ import (
 const (
 	sBaseH = 175
 	sNTx   = 36
+	sExtra = 8 // sNTx * sExtra = 288 extra transactions in blocks 2 and 4
 )
 
 func amt(u int64) conc.Amt { return conc.Amt{U: u} }
@@ -35,28 +36,42 @@ func amt(u int64) conc.Amt { return conc.Amt{U: u} }
 func stressScenario() conc.Scenario {
 	sc := conc.Scenario{Blk: conc.IntMap[conc.BlkDef]{}, Tx: conc.IntMap[conc.TxDef]{}, BaseH: sBaseH}
 	cb := func(b int) []conc.OutDef { return []conc.OutDef{{Amt: amt(50), Addr: 900 + b, St: conc.StP2SH}} }
-	var t1, t2, t3, t3b, t4, t5, t7 []int
+	var t1, t2, t2w, t3, t3b, t4, t4w, t5, t7 []int
 	for i := 1; i <= sNTx; i++ {
 		// block 1: two matured base coinbases in, three outputs of different types out
 		id := 1000 + i
 		sc.Tx[id] = conc.TxDef{Ver: 2, Ins: []conc.InDef{{Tx: 2*i - 1, Vout: 1, Ok: true}, {Tx: 2 * i, Vout: 1, Ok: true}},
-			Outs: []conc.OutDef{{Amt: amt(30), Addr: 10 + i, St: conc.StP2WPKH}, {Amt: amt(30), Addr: 100 + i, St: conc.StP2PKH}, {Amt: amt(39), Addr: 200 + i, St: conc.StP2SH}}}
+			Outs: []conc.OutDef{{Amt: amt(30), Addr: 10 + i, St: conc.StP2WPKH}, {Amt: amt(30), Addr: 100 + i, St: conc.StP2PKH}, {Amt: amt(31), Addr: 200 + i, St: conc.StP2SH}}}
+		// ... plus sExtra small anyone-can-spend outputs, spent one per transaction by the wide blocks 2 and 4
+		// (several hundred transactions per block: commit() runs > 10 insert / delete batches side by side)
+		for m := 0; m < sExtra; m++ {
+			d := sc.Tx[id]
+			d.Outs = append(d.Outs, conc.OutDef{Amt: amt(1), Addr: 3000 + i*sExtra + m, St: conc.StP2SH})
+			sc.Tx[id] = d
+			x := (i-1)*sExtra + m
+			sc.Tx[20000+x] = conc.TxDef{Ver: 2, Ins: []conc.InDef{{Tx: id, Vout: 4 + m, Ok: true}},
+				Outs: []conc.OutDef{{Amt: conc.Amt{E: 40000000}, Addr: 6000 + x, St: conc.StP2SH}, {Amt: conc.Amt{E: 40000000}, Addr: 7000 + x, St: conc.StP2PKH}}}
+			t2w = append(t2w, 20000+x)
+			sc.Tx[40000+x] = conc.TxDef{Ver: 2, Ins: []conc.InDef{{Tx: id, Vout: 4 + m, Ok: true}},
+				Outs: []conc.OutDef{{Amt: conc.Amt{E: 30000000}, Addr: 8000 + x, St: conc.StP2SH}, {Amt: conc.Amt{E: 30000000}, Addr: 9000 + x, St: conc.StP2WPKH}, {Amt: conc.Amt{E: 30000000}, Addr: 10000 + x, St: conc.StP2SH}}}
+			t4w = append(t4w, 40000+x)
+		}
 		t1 = append(t1, id)
 		// block 2 (branch A): all three outputs of the block-1 transaction, signatures verified in parallel
 		id2 := 2000 + i
 		sc.Tx[id2] = conc.TxDef{Ver: 2, Ins: []conc.InDef{{Tx: id, Vout: 1, Ok: true}, {Tx: id, Vout: 2, Ok: true}, {Tx: id, Vout: 3, Ok: true}},
-			Outs: []conc.OutDef{{Amt: amt(49), Addr: 300 + i, St: conc.StP2WPKH}, {Amt: amt(49), Addr: 400 + i, St: conc.StP2WSH}}}
+			Outs: []conc.OutDef{{Amt: amt(45), Addr: 300 + i, St: conc.StP2WPKH}, {Amt: amt(45), Addr: 400 + i, St: conc.StP2WSH}}}
 		t2 = append(t2, id2)
 		// block 3 (branch A)
 		id3 := 3000 + i
 		sc.Tx[id3] = conc.TxDef{Ver: 2, Ins: []conc.InDef{{Tx: id2, Vout: 1, Ok: true}, {Tx: id2, Vout: 2, Ok: true}},
-			Outs: []conc.OutDef{{Amt: amt(97), Addr: 500 + i, St: conc.StP2PKH}}}
+			Outs: []conc.OutDef{{Amt: amt(89), Addr: 500 + i, St: conc.StP2PKH}}}
 		t3 = append(t3, id3)
 		// ... and, still in block 3, a transaction that spends an output created in the same block (the main loop
 		// marks it spent in the block-local pool while the script workers of its parent may still be running)
 		id3b := 3500 + i
 		sc.Tx[id3b] = conc.TxDef{Ver: 2, Ins: []conc.InDef{{Tx: id3, Vout: 1, Ok: true}},
-			Outs: []conc.OutDef{{Amt: amt(96), Addr: 550 + i, St: conc.StP2WPKH}}}
+			Outs: []conc.OutDef{{Amt: amt(88), Addr: 550 + i, St: conc.StP2WPKH}}}
 		t3b = append(t3b, id3b)
 		// block 4 (branch B): spends the same block-1 outputs differently
 		id4 := 4000 + i
@@ -66,18 +81,18 @@ func stressScenario() conc.Scenario {
 		// block 5 (branch B)
 		id5 := 5000 + i
 		sc.Tx[id5] = conc.TxDef{Ver: 2, Ins: []conc.InDef{{Tx: id4, Vout: 1, Ok: true}, {Tx: id, Vout: 3, Ok: true}, {Tx: id4, Vout: 2, Ok: true}},
-			Outs: []conc.OutDef{{Amt: amt(97), Addr: 800 + i, St: conc.StP2WPKH}}}
+			Outs: []conc.OutDef{{Amt: amt(89), Addr: 800 + i, St: conc.StP2WPKH}}}
 		t5 = append(t5, id5)
 		// block 7 (branch A again)
 		id7 := 7000 + i
 		sc.Tx[id7] = conc.TxDef{Ver: 2, Ins: []conc.InDef{{Tx: id3b, Vout: 1, Ok: true}},
-			Outs: []conc.OutDef{{Amt: amt(47), Addr: 1100 + i, St: conc.StP2SH}, {Amt: amt(48), Addr: 1200 + i, St: conc.StP2WPKH}}}
+			Outs: []conc.OutDef{{Amt: amt(43), Addr: 1100 + i, St: conc.StP2SH}, {Amt: amt(44), Addr: 1200 + i, St: conc.StP2WPKH}}}
 		t7 = append(t7, id7)
 	}
 	sc.Blk[1] = conc.BlkDef{Parent: 0, Txs: t1, Cbouts: cb(1)}
-	sc.Blk[2] = conc.BlkDef{Parent: 1, Txs: t2, Cbouts: cb(2)}
+	sc.Blk[2] = conc.BlkDef{Parent: 1, Txs: append(t2, t2w...), Cbouts: cb(2)}
 	sc.Blk[3] = conc.BlkDef{Parent: 2, Txs: append(t3, t3b...), Cbouts: cb(3)}
-	sc.Blk[4] = conc.BlkDef{Parent: 1, Txs: t4, Cbouts: cb(4)}
+	sc.Blk[4] = conc.BlkDef{Parent: 1, Txs: append(t4, t4w...), Cbouts: cb(4)}
 	sc.Blk[5] = conc.BlkDef{Parent: 4, Txs: t5, Cbouts: cb(5)}
 	sc.Blk[6] = conc.BlkDef{Parent: 5, Txs: nil, Cbouts: cb(6)}
 	sc.Blk[7] = conc.BlkDef{Parent: 3, Txs: t7, Cbouts: cb(7)}
@@ -147,8 +162,9 @@ func cmdStress(args []string) {
 	seed := fs.Int64("seed", 1, "")
 	rounds := fs.Int("rounds", 6, "")
 	yield := fs.Bool("yield", true, "")
+	compress := fs.Bool("compress", false, "compressed UTXO records (chain.NewChanOpts.CompressUTXO)")
 	fs.Parse(args)
-	w, err := conc.NewWorld(stressScenario(), *dir, false)
+	w, err := conc.NewWorld(stressScenario(), *dir, *compress)
 	if err != nil {
 		fmt.Fprintln(os.Stderr, "world:", err)
 		os.Exit(2)
@@ -306,5 +322,5 @@ func cmdStress(args []string) {
 		out.Put(v)
 	}
 	out.Put(map[string]interface{}{"summary": true, "rounds": *rounds, "deliveries": (*rounds + 1) * len(stressOrder), "saves": saves,
-		"watcher_checks": checks, "violations": len(viol), "ref": ref})
+		"watcher_checks": checks, "violations": len(viol), "ref": ref, "compress": *compress})
 }
